@@ -27,11 +27,26 @@ META = {
 # column letters
 
 
-def _colval(s):
-    """bijective base-26 value of a structured string made of single-character atoms."""
-    v = z3.IntVal(0)
+def _codes(s):
+    """code terms of the characters of a structured string made of literal letters and chr() atoms; None otherwise."""
+    if isinstance(s, str):
+        s = SStr([s])
+    out = []
     for p in s.parts:
-        v = v * 26 + (p.code - 64)
+        if isinstance(p, str):
+            out += [z3.IntVal(ord(ch)) for ch in p]
+        elif isinstance(p, Atom) and hasattr(p, "code"):
+            out.append(p.code)
+        else:
+            return None
+    return out
+
+
+def _colval(s):
+    """bijective base-26 value of such a string."""
+    v = z3.IntVal(0)
+    for code in _codes(s):
+        v = v * 26 + (code - 64)
     return v
 
 
@@ -73,10 +88,11 @@ def _column_reference(c):
         return
     c.ensures("post.in_range_accepted", z3.And(n >= 1, n <= 16384))
     r = out.value
-    ok = isinstance(r, SStr) and 1 <= len(r.parts) <= 3 and all(isinstance(p, Atom) and hasattr(p, "code") for p in r.parts)
+    codes = _codes(r) if isinstance(r, (str, SStr)) else None
+    ok = codes is not None and 1 <= len(codes) <= 3
     c.ensures("post.one_to_three_chars", ok)
     if ok:
-        c.ensures("post.letters_A_to_Z", z3.And(*[z3.And(p.code >= 65, p.code <= 90) for p in r.parts]))
+        c.ensures("post.letters_A_to_Z", z3.And(*[z3.And(cd >= 65, cd <= 90) for cd in codes]))
         c.ensures("post.colval_equals_column_number", _colval(r) == n)
 
 
@@ -516,13 +532,8 @@ def _replay_dates(model, rec):
         chart = gf.chart
         if d1904:
             cs = chart._chartSpace
-            el = cs._add_date1904() if hasattr(cs, "_add_date1904") else None
-            if el is None:
-                from pptx.oxml.xmlchemy import OxmlElement
-
-                el = OxmlElement("c:date1904")
-                cs.insert(0, el)
-            el.set("val", "1")
+            cs.get_or_add_date1904().set("val", "1")
+            assert cs.date_1904 is True
             chart.replace_data(cd)
         cache = [float(v) for v in chart._chartSpace.xpath(".//c:cat//c:pt/c:v/text()")]
         blob = chart.part.chart_workbook.xlsx_part.blob
